@@ -20,3 +20,15 @@ var props = map[string]*propCfg{
 		Must:  []string{"queue_full_submit_blocked", "all_workers_busy"},
 	},
 }
+
+func init() {
+	props["C13"] = &propCfg{
+		Parts: []part{{Engine: "storesim", Quick: 24000, Thorough: 600000}},
+		Rule:  "one evaluation = one simulated history of 2..6 clients x <=5 store operations (<=24 per history) over <=4 keys with unique values, every Lock/RLock a scheduling point, checked with porcupine against a sequential map; non-trivial = at least one pair of operations of different clients overlapped (invoke/return stamped with event sequence numbers); distinct = distinct hash of (scenario shape, scheduler choice sequence)",
+		Must:  []string{"merge_overlapped", "clear_overlapped", "porcupine_ok"},
+	}
+	props["C14"] = &propCfg{
+		Parts: []part{{Engine: "storesim", Quick: 24000, Thorough: 600000}},
+		Rule:  "one evaluation = either one client issuing up to 200 operations (refinement against a Go map, operation by operation, including snapshot-mutation and merge-of-alias steps) or 2..4 clients whose GetAll/Keys snapshots are deep-copied at hand-out, poisoned by their holder or left alone, and re-validated at the end; non-trivial = >=3 operations (1 client) or overlapping operations (several clients); distinct = distinct hash of (scenario shape, scheduler choice sequence)",
+	}
+}
